@@ -39,6 +39,9 @@ EXT = ['lp_glpk', 'op_glpk', 'sdp_dsdp']
 STEP_PER_ITER_BOUND = 60000      # calibrated: see DESIGN 8 (max observed ~1.2e3 per iteration; x >=20)
 
 
+_CSTATE = [None]
+
+
 def warmup():
     import cvxopt
     from cvxopt import solvers, misc, cvxprog, coneprog, modeling, printing, cholmod, umfpack, amd, lapack, blas  # noqa
@@ -51,6 +54,8 @@ def warmup():
         from cvxopt import dsdp  # noqa
     except ImportError:
         pass
+    if _CSTATE[0] is None:
+        _CSTATE[0] = O.CState()
 
 
 # ----------------------------------------------------------------------------- instances
@@ -314,6 +319,7 @@ class RefCache:
         self.audit_rate = audit_rate
         self.audits = 0
         self.audit_failure = None
+        self.cstate_failure = None
         self.history = []
 
     def get(self, idx, inst, kw_opts, global_opts):
@@ -324,7 +330,12 @@ class RefCache:
             if self.fork:
                 val = self._pristine(inst, kw_opts, g)
             else:
+                cst0 = _CSTATE[0].snapshot() if _CSTATE[0] is not None else None
                 val = _reference_child(inst, kw_opts, g)
+                if cst0 is not None and self.cstate_failure is None:
+                    cd = O.CState.diff(cst0, _CSTATE[0].snapshot())
+                    if cd:
+                        self.cstate_failure = (inst, kw_opts, g, cd)
                 self.history.append([inst, kw_opts, g])
                 from cvxopt import solvers
                 solvers.options.clear()
@@ -409,6 +420,7 @@ def run_case(case, refs=None):
                     kw = dict(op[2]) if op[2] is not None else None
                     img0 = O.image([m, kw])
                     snap0 = O.globals_snapshot()
+                    cst0 = _CSTATE[0].snapshot()
                     gl0 = O.bits(dict(solvers.options))
                     del cl.out[:]
                     start = cl.local
@@ -427,6 +439,7 @@ def run_case(case, refs=None):
                     o['stdout'] = ''.join(cl.out)
                     o['img_same'] = (O.image([m, kw]) == img0) and (kw == op[2])
                     o['snapdiff'] = O.snapshot_diff(snap0, O.globals_snapshot())
+                    o['cdiff'] = O.CState.diff(cst0, _CSTATE[0].snapshot())
                     o['globals_same'] = O.bits(dict(solvers.options)) == gl0
                     obs[ci][oi] = o
                 else:
@@ -506,6 +519,10 @@ def run_case(case, refs=None):
             if o['snapdiff']:
                 violation = V('global-state-changed', entry, '%s: module state changed across the call: %s' % (where, o['snapdiff'][:3]),
                               attr=o['snapdiff'][0][0])
+                break
+            if o['cdiff']:
+                violation = V('c-static-state-changed', entry, '%s: static data of the extension modules changed across the call: %s' % (where, o['cdiff'][:4]),
+                              symbol=o['cdiff'][0])
                 break
             if mode == 'history' and not o['globals_same']:
                 violation = V('global-options-modified', entry, '%s: the call modified solvers.options' % where)
@@ -631,6 +648,8 @@ def run_refhistory(case):
 def execute(case, journal):
     if case.get('mode') == 'refhistory':
         return run_refhistory(case)
+    if case.get('mode') == 'cstate':
+        return run_cstate(case)
     r = run_case(case)
     return {'violation': r['violation'], 'digest': r['digest'], 'stats': r['stats']}
 
@@ -672,12 +691,38 @@ def run_unit(seed, tier, r, journal):
         case = {'mode': 'refhistory', 'calls': hist}
         v = history_violation(inst, val, pv)
         res['violations'].append({'case': case, 'violation': v})
+    if refs.cstate_failure is not None and not res['violations']:
+        inst, kw, g, cd = refs.cstate_failure
+        res['violations'].append({'case': {'mode': 'cstate', 'calls': [[inst, kw, g]]}, 'violation': cstate_violation(inst, cd)})
     res['digest'] = ulog.digest()
     return res
 
 
+def cstate_violation(inst, cd):
+    return {'oracle': 'c-static-state-changed', 'klass': 'c-static-state-changed:%s' % inst['kind'],
+            'sig': {'oracle': 'c-static-state-changed', 'entry': inst['kind'], 'symbol': cd[0]},
+            'detail': 'a %s call changed static data of the extension modules: %s' % (inst['kind'], cd[:4])}
+
+
+def run_cstate(case):
+    warmup()
+    from cvxopt import solvers
+    log = core.Log()
+    cd = []
+    for inst, kw, g in case['calls']:
+        a = _CSTATE[0].snapshot()
+        val = _reference_child(inst, kw, g)
+        solvers.options.clear()
+        cd = O.CState.diff(a, _CSTATE[0].snapshot())
+        log.add('call', val[0], cd)
+    inst = case['calls'][-1][0]
+    return {'violation': cstate_violation(inst, cd) if cd else None, 'digest': log.digest(), 'stats': {}}
+
+
 def shrink(case, still_fails):
     """ops per client (under the seeded policy, then under the frozen schedule), then the switch list"""
+    if case.get('mode') == 'cstate':
+        return case
     if case.get('mode') == 'refhistory':
         head = core.ddmin(case['calls'][:-1], lambda sub: still_fails({'mode': 'refhistory', 'calls': sub + case['calls'][-1:]}), budget=60)
         return {'mode': 'refhistory', 'calls': head + case['calls'][-1:]}
